@@ -125,6 +125,13 @@ def wrap_task(task):
                 continue
             if split_words(ans.rstrip('.')) != in_words and split_words(ans) != in_words:
                 fail('rst-words', text, [w, ind, nl], f'words {in_words} -> {split_words(ans)}')
+            if not has_markup:
+                # plain text is wrapped by the generator itself: every line, the indentation it sits behind included, stays
+                # within the requested width (the first line is placed behind the indentation by the template)
+                for li, line in enumerate(ans.split('\n')):
+                    used = len(line) + (ind if li == 0 else 0)
+                    if used > w and len(line.split()) > 1:
+                        fail('rst-width', text, [w, ind, nl], f'line {li} {line!r} ends at column {used} > {w} and has more than one word')
             # embedded exactly as the templates embed it
             for prefix in ('r', ''):
                 if prefix == '' and '\\' in ans:
@@ -320,6 +327,10 @@ def doc_job(offset=0, hazard=None):
     a_ = edits.Api()
     edits.EDITS['request_from_other_file'](a_)
     edits.EDITS['nested_deep'](a_)
+    # fields declared in an order that differs from their numbers; an enum whose values are declared out of numeric order
+    a_.msg(desc.message('Shuffled', [desc.field('name', 1, 'string'), desc.field('author', 4, 'string'), desc.field('title', 2, 'string'),
+                                     desc.field('page_count', 3, 'int32'), desc.field('mood', 5, 'enum:.' + a_.main.package + '.Mood')]))
+    a_.main.enum_type.append(desc.enum('Mood', ('MOOD_UNSPECIFIED', 0), ('GLAD', 2), ('CALM', 1), ('GRIM', 3)))
     comments, kinds, placed = {}, {}, {}
     i = 0
     for f in a_.files:
